@@ -610,7 +610,7 @@ def _ensure_runs(ctx, extra=False):
         st["recs"] = [r for (k, _), r in zip(jobs, out) if k == "case"]
     if extra and st["round"] == 0:
         st["round"] = 1
-        nv, nc = ctx.n(3000, 24000), ctx.n(1000, 8000)
+        nv, nc = ctx.n(2000, 24000), ctx.n(600, 8000)
         seeds = [(ctx.rng.getrandbits(48), "vendor") for _ in range(nv)] + [(ctx.rng.getrandbits(48), "corrupt") for _ in range(nc)]
         st["recs"] += _pool_map(work, seeds)
     return st
